@@ -910,6 +910,13 @@ where
                 _ = this.write_notify.notified(), if receiver.is_empty() => {
                     #[cfg(d_engine_verif)]
                     verif_arm_trace::record(b'n');
+                    // The preconditions above are evaluated when select! is entered; a command
+                    // may have been queued while the loop was parked. Hand the wake-up back and
+                    // re-enter select!, where only the command arm is enabled then.
+                    if !receiver.is_empty() {
+                        this.write_notify.notify_one();
+                        continue;
+                    }
                     // Persist all entries written to SkipMap since last fsync.
                     let end = this.max_index.load(Ordering::Acquire);
                     let start = this.durable_index.load(Ordering::Acquire) + 1;
@@ -1101,6 +1108,11 @@ where
                 _ = safety_timer.tick(), if receiver.is_empty() => {
                     #[cfg(d_engine_verif)]
                     verif_arm_trace::record(b't');
+                    // Same as in the notify arm: the command goes first (this tick is skipped,
+                    // the next one comes after the usual interval).
+                    if !receiver.is_empty() {
+                        continue;
+                    }
                     // Safety-net: persist and fsync any entries not yet durable.
                     let end = this.max_index.load(Ordering::Acquire);
                     let start = this.durable_index.load(Ordering::Acquire) + 1;
